@@ -104,7 +104,7 @@ func (g *G) lit(t ty) string {
 	case tInt:
 		return fmt.Sprint(g.pick(10))
 	case tFloat:
-		return []string{"0.5", "1.5", "2.0", "3.25"}[g.pick(4)]
+		return []string{"0.5", "1.5", "2.0", "3.25", "0.0", "(0.0 / 0.0)", "(1.0 / 0.0)"}[g.pick(7)]
 	case tBool:
 		return []string{"true", "false"}[g.pick(2)]
 	case tStr:
@@ -188,7 +188,12 @@ func (g *G) expr(t ty, d int) string {
 			return "!" + g.paren(g.expr(tBool, d-1))
 		case 4:
 			t2 := []ty{tStr, tArr, tFloat}[g.pick(3)]
-			return g.paren(g.expr(t2, d-1)) + " == " + g.paren(g.expr(t2, d-1))
+			if t2 == tFloat && g.pick(2) == 0 {
+				// ordering of floats (NaN compares false every way)
+				op := []string{"<", "<=", ">", ">="}[g.pick(4)]
+				return g.paren(g.expr(tFloat, d-1)) + " " + op + " " + g.paren(g.expr([]ty{tInt, tFloat}[g.pick(2)], d-1))
+			}
+			return g.paren(g.expr(t2, d-1)) + " " + []string{"==", "!="}[g.pick(2)] + " " + g.paren(g.expr(t2, d-1))
 		default:
 			return g.expr(tBool, 0)
 		}
